@@ -7,7 +7,8 @@ open Verif.Mpt Verif.MptStore Driver
 structure St where
   ps : PStore := {}
   tries : List (Nat × Nat × Trie) := []        -- id, parent id, trie
-  saved : List (Nat × Bytes × Node) := []      -- version, root, tree of every saved round (oldest first)
+  saved : List (Nat × Bytes × Node × Bool) := []   -- version, root, tree, superseded? of every saved round (oldest first)
+  kind0 : String := "level"                    -- store kind of the block trie: level | mem | pndb
 
 def maxPrune : Nat := 1000
 
@@ -75,13 +76,14 @@ def fmtEvents (es : List Event) : String :=
     | .del o => some ("d:" ++ hex (o.key sha3))))
 
 def observe (s : St) (id : Nat) (t : Trie) : String :=
+  let kind := if id = 0 then s.kind0 else "level"
   let it :=
     if resolvesFast (getChain s id) t.tree then fmtPairs (iterate t.tree []) else "!unresolved"
   let ch := sortStr (t.cc.getChanges.map (fun c =>
     hex (c.new.key sha3) ++ (match c.old with | some o => "<" ++ hex (o.key sha3) | none => "")))
   let dl := sortStr (t.cc.getDeletes.map (fun d => hex (d.key sha3)))
-  let cur := sortStr (t.db.current.map (fun e => hex e.1))
-  let gone := sortStr (t.db.deleted.map hex)
+  let cur := if kind = "pndb" then [] else sortStr (t.db.current.map (fun e => hex e.1))
+  let gone := if kind = "level" then sortStr (t.db.deleted.map hex) else []
   "ok root=" ++ rootStr t.root ++ " iter=" ++ it ++ " changes=" ++ ",".intercalate ch ++ " deletes=" ++ ",".intercalate dl
     ++ " cur=" ++ ",".intercalate cur ++ " gone=" ++ ",".intercalate gone
 
@@ -122,10 +124,25 @@ def orderStuckD (changes : List (Change Ref)) : Bool :=
     | none => m) ([] : Map Bytes Nat)
   orderStuckLoopD (changes.length + 1) changes counts
 
+/-- the saved round a block trie opened now continues from: the latest one that was not executed again -/
 def lastSaved (s : St) : Bytes × Node :=
-  match s.saved.getLast? with
-  | some (_, r, t) => (r, t)
+  match (s.saved.filter (fun e => !e.2.2.2)).getLast? with
+  | some (_, r, t, _) => (r, t)
   | none => ([], .empty)
+
+/-- a block trie working directly on the persistent store: its level IS the persistent node store -/
+def syncP (s : St) : St :=
+  if s.kind0 = "pndb" then
+    match findTrie s 0 with
+    | some (_, t) => { s with ps := { s.ps with nodes := t.db.current } }
+    | none => s
+  else s
+
+def parseKVs (x : String) : Option (List (List Nib × Bytes)) :=
+  (x.splitOn ",").mapM (fun kv =>
+    match kv.splitOn "=" with
+    | [k, v] => do let p ← parsePath k; let b ← unhex v; pure (p, b)
+    | _ => none)
 
 def nodeCount (s : St) : String := toString s.ps.nodes.length
 
@@ -144,14 +161,34 @@ def doSave (s : St) (t : Trie) (k : Option Nat) : St :=
   let ps1 := match k with
     | some k => s.ps.applyAll (stream.take k)   -- the crashed attempt; the round is then re-executed and saved again
     | none => s.ps
-  { s with ps := ps1.applyAll stream, saved := s.saved ++ [(t.version, t.root, t.tree)] }
+  let s1 := { s with ps := ps1.applyAll stream, saved := s.saved ++ [(t.version, t.root, t.tree, false)] }
+  if s.kind0 = "pndb" then setTrie s1 0 { t with db := { t.db with current := s1.ps.nodes } } else s1
 
 def step (s : St) (w : List String) : St × String :=
   match w with
   | ["light"] => (s, "ok")
-  | ["round", v] =>
-    let (r, tree) := lastSaved s
-    ({ s with tries := [(0, 0, Trie.open r tree v.toNat!)] }, "ok " ++ rootStr r)
+  | "round" :: v :: rest =>
+    let v := v.toNat!
+    let kind := match rest with | [k] => k | _ => "level"
+    let saved1 := s.saved.map (fun e => if e.1 ≥ v then (e.1, e.2.1, e.2.2.1, true) else e)
+    let s1 := { s with saved := saved1 }
+    let (r, tree) := if kind = "mem" then ([], Node.empty) else lastSaved s1
+    let t0 := Trie.open r tree v
+    let t0 := if kind = "pndb" then { t0 with db := { t0.db with current := s.ps.nodes } } else t0
+    let saved2 := if kind = "pndb" then saved1.map (fun e => (e.1, e.2.1, e.2.2.1, true)) else saved1
+    ({ s1 with tries := [(0, 0, t0)], kind0 := kind, saved := saved2 }, "ok " ++ rootStr r)
+  | ["ver", "0", n] =>
+    match findTrie s 0 with
+    | some (_, t) => (setTrie s 0 { t with version := n.toNat! }, "ok")
+    | none => (s, "bad-op")
+  | "syncfrom" :: w :: rest =>
+    match findTrie s 0, (match rest with | [x] => parseKVs x | _ => some []) with
+    | some (_, t), some kvs =>
+      let donor := kvs.foldl (fun d (p, b) => Verif.Mpt.insert w.toNat! b d p) Node.empty
+      let t1 := t.applyEvents sha3 ((refs donor []).map (fun r => Event.put none r))
+      let t2 := { t1 with tree := donor, root := root sha3 donor }
+      (syncP (setTrie s 0 t2), "ok " ++ rootStr t2.root)
+    | _, _ => (s, "bad-op")
   | ["child", id, pid] =>
     let id := id.toNat!
     match findTrie s pid.toNat!, findTrie s id with
@@ -163,13 +200,13 @@ def step (s : St) (w : List String) : St × String :=
     match findTrie s id.toNat!, parsePath p, unhex b with
     | some (_, t), some p, some b =>
       let (t', es) := t.insert sha3 p b
-      (setTrie s id.toNat! t', "ok " ++ rootStr t'.root ++ " ev=" ++ fmtEvents es)
+      (syncP (setTrie s id.toNat! t'), "ok " ++ rootStr t'.root ++ " ev=" ++ fmtEvents es)
     | _, _, _ => (s, "bad-op")
   | ["del", id, p] =>
     match findTrie s id.toNat!, parsePath p with
     | some (_, t), some p =>
       match t.delete sha3 p with
-      | (t', .ok, es) => (setTrie s id.toNat! t', "ok " ++ rootStr t'.root ++ " ev=" ++ fmtEvents es)
+      | (t', .ok, es) => (syncP (setTrie s id.toNat! t'), "ok " ++ rootStr t'.root ++ " ev=" ++ fmtEvents es)
       | (_, .notPresent, _) => (s, "notpresent")
       | (_, _, _) => (s, "panic")
     | _, _ => (s, "bad-op")
@@ -188,7 +225,7 @@ def step (s : St) (w : List String) : St × String :=
         | .ok p' =>
           -- hypothesis of the closed merge theorems, evaluated on every replayed merge: the ordering is never stuck
           let stuck := if orderStuckD (mergeOrder c.cc.getChanges) || orderStuckD c.cc.getChanges then " ORDER-STUCK" else ""
-          (closeTrie (setTrie s pid p') id, "ok " ++ rootStr p'.root ++ stuck)
+          (syncP (closeTrie (setTrie s pid p') id), "ok " ++ rootStr p'.root ++ stuck)
         | .stale => (s, "stale")
       | none => (s, "bad-op")
     | none => (s, "bad-op")
@@ -211,7 +248,7 @@ def step (s : St) (w : List String) : St × String :=
     | none => (s, "bad-op")
   | ["reopen", i] =>
     match s.saved[i.toNat!]? with
-    | some (_, _, tree) =>
+    | some (_, _, tree, _) =>
       if resolvesFast (Map.get s.ps.nodes) tree then (s, "ok " ++ fmtPairs (iterate tree [])) else (s, "missing")
     | none => (s, "bad-op")
   | ["prune", v] =>
